@@ -925,7 +925,7 @@ package gkvlite
 //@   loop 0 decreases len(cnames) - rangeindex
 
 //@ func (*Store).Flush
-//@   props C02 C03 C04 C05 C07 C09 C12 C18 C08
+//@   props C02 C03 C04 C05 C07 C09 C12 C18 C08 C01
 //@   from: C03 "the root record is the last write of Flush" (single commit point); C09 W1; C04 "snapshots refuse ... Flush"; C07 E1; C05 L6 (versions are pinned in sorted name order before anything is written)
 //@   requires s != nil && locks == emptyLocks() && s.size >= 0
 //@   requires [C07] open-store: s.coll != nil && deref(s.coll) != nil
@@ -939,7 +939,7 @@ package gkvlite
 //@   ensures [C09,C03] writes-at-or-beyond-old-size: s.file != nil ==> io.minoff[s.file] >= min(old(io.minoff[s.file]), old(s.size))
 //@   ensures [C09,C03,C07] bytes-below-old-size-unchanged: s.file != nil ==> samePrefix(fbytes[s.file], old(fbytes[s.file]), old(s.size))
 //@   ensures [C09] other-files: forall f :: f != s.file ==> fbytes[f] == old(fbytes[f]) && flen[f] == old(flen[f]) && io.minoff[f] == old(io.minoff[f])
-//@   ensures [C03,C02,C14,C08] commit-point-is-last: result == nil ==> magicEndAt(fbytes[s.file], s.size) && s.size >= old(s.size) + 46
+//@   ensures [C03,C02,C14,C08,C01] commit-point-is-last: result == nil ==> magicEndAt(fbytes[s.file], s.size) && s.size >= old(s.size) + 46
 //@   loop 0 modifies rootNodeLoc.refs, mapcontent(rnls)
 //@   loop 0 invariant -1 <= rangeindex && rangeindex < len(cnames)
 //@   loop 0 invariant [C05] pinned-prefix: forall j in cnames :: j <= rangeindex ==> has(rnls, cnames[j]) && rnls[cnames[j]] != nil && rnls[cnames[j]] == coll[cnames[j]].root
@@ -1587,9 +1587,9 @@ package gkvlite
 // function assume
 
 //@ func init
-//@   props C03 C02 C14 C12 C08
+//@   props C03 C02 C14 C12 C08 C09 C19 C07
 //@   from: the `global` clauses of this file (root record geometry, magic markers, sentinels) are postconditions of the package initialiser
 //@   modifies G.rootsEndLen, G.rootsLen, G.MagicBeg, G.MagicEnd, G.plocEmpty, new mem.byte, new ploc.Offset, new ploc.Length
-//@   ensures [C03,C02,C14,C12] root-record-geometry: rootsEndLen == 24 && rootsLen == 44
+//@   ensures [C03,C02,C14,C12,C08,C09,C19,C07] root-record-geometry: rootsEndLen == 24 && rootsLen == 44
 //@   ensures [C14,C03] magic-markers: len(MagicBeg) == 6 && MagicBeg[0] == 48 && MagicBeg[1] == 103 && MagicBeg[2] == 49 && MagicBeg[3] == 116 && MagicBeg[4] == 50 && MagicBeg[5] == 114 && len(MagicEnd) == 6 && MagicEnd[0] == 51 && MagicEnd[1] == 101 && MagicEnd[2] == 52 && MagicEnd[3] == 97 && MagicEnd[4] == 53 && MagicEnd[5] == 112
 //@   ensures [C14] empty-location: plocEmpty != nil && plocEmpty.Offset == 0 && plocEmpty.Length == 0
